@@ -56,6 +56,8 @@ def plan(tier, seed):
     for prog in ("gaussian", "orca"):
         cases.append({"kind": "write_fault", "fmt": prog, "op": "write_input", "seed": seed, "kmax": 40 if tier == "quick" else 300})
     cases.append({"kind": "unwritable", "seed": seed})
+    # the repository's own test-suite as a workload under monitor M9 (vf/mon/pytest_plugin.py)
+    cases.append({"kind": "suite", "tier": tier, "timeout": 3300})
     return cases
 
 
@@ -461,6 +463,10 @@ def case_unwritable(case):
 
 
 def run_case(case):
+    if case.get("kind") == "suite":
+        from .. import suite
+
+        return suite.case(['preflight-spares'], case["tier"])
     fn = {"required": case_required, "prepare": case_prepare, "many": case_many, "write_fault": case_write_fault,
           "selection": case_selection, "unwritable": case_unwritable}[case["kind"]]
     viols, feats, counters, sample = fn(case)
